@@ -79,8 +79,15 @@ def basic_cases(prop, seed, tier, ops, kinds=KINDS, states=("fresh", "own", "gen
                     c = Case(kind, p, iname, S, st, opt_for(kind, r), ops, big=(tier == "thorough") if big is None else big, seed=gen.splitmix(seed, ii, 7))
                     if filt and not filt(c):
                         continue
+                    if kind == "XBW" and not xbw_ok(S):
+                        continue
                     cases.append(c)
     return cases
+
+def xbw_ok(S):
+    """XBW search/extraction is quadratic in the string length (vector-front erasure per trie level): keep its inputs moderate so that
+    the CPU limit only ever fires on a genuine spin"""
+    return max(len(x) for x in S) <= 300 and sum(len(x) + 1 for x in S) <= 40000
 
 def nt_fc_or_any(case, counters):
     """non-trivial: >=2 strings and, for bucketed kinds, >=2 buckets or a partial last bucket"""
